@@ -156,9 +156,9 @@ func cursorDeref(in ssa.Instruction) (bool, string) {
 		}
 	case *ssa.Call:
 		if cal := staticCallee(&x.Call); cal != nil && isUncheckedDerefMethod(cal) {
-			return true, cal.Name() + "()"
+			return true, fname(cal) + "()"
 		}
-		if cal := staticCallee(&x.Call); cal != nil && (cal.Name() == "leftmostLeaf" || cal.Name() == "rightmostLeaf") && len(x.Call.Args) == 1 && strings.Contains(path(x.Call.Args[0]), ".curr.") {
+		if cal := staticCallee(&x.Call); cal != nil && (fname(cal) == "leftmostLeaf" || fname(cal) == "rightmostLeaf") && len(x.Call.Args) == 1 && strings.Contains(path(x.Call.Args[0]), ".curr.") {
 			return false, ""
 		}
 	}
@@ -179,7 +179,7 @@ func ruleCursorValidated(c *Ctx, r *R) {
 				return false
 			}
 			cal := staticCallee(&call.Call)
-			return cal != nil && cal.Name() == "lost"
+			return cal != nil && fname(cal) == "lost"
 		}
 		pf := &PF{N: 4}
 		pf.Instr = func(f *ssa.Function, in ssa.Instruction, q int) (StateSet, bool) {
@@ -190,9 +190,9 @@ func ruleCursorValidated(c *Ctx, r *R) {
 					return 0, false
 				}
 				switch {
-				case strings.HasPrefix(cal.Name(), "Seek"):
+				case strings.HasPrefix(fname(cal), "Seek"):
 					return ss(1), true // freshly positioned: valid, but may have run off the tree (curr == nil)
-				case (cal.Name() == "Next" || cal.Name() == "Prev") && cal.Signature.Recv() != nil && isNamedType(cal.Signature.Recv().Type(), treeRel, "cursor"):
+				case (fname(cal) == "Next" || fname(cal) == "Prev") && cal.Signature.Recv() != nil && isNamedType(cal.Signature.Recv().Type(), treeRel, "cursor"):
 					return ss(q &^ 2), true // moved: node may be nil now
 				}
 			case *ssa.Store:
@@ -310,8 +310,8 @@ func ruleReseekDirection(c *Ctx, r *R) {
 		okArg := true
 		instrs(fn, func(b *ssa.BasicBlock, i int, in ssa.Instruction) {
 			if call, ok := in.(*ssa.Call); ok {
-				if cal := staticCallee(&call.Call); cal != nil && strings.HasPrefix(cal.Name(), "Seek") {
-					seeks = append(seeks, cal.Name())
+				if cal := staticCallee(&call.Call); cal != nil && strings.HasPrefix(fname(cal), "Seek") {
+					seeks = append(seeks, fname(cal))
 					pos = call.Pos()
 					// the key sought is the cursor's remembered key
 					ap := path(call.Call.Args[1])
@@ -361,7 +361,7 @@ func ruleReseekDirection(c *Ctx, r *R) {
 				return
 			}
 			cal := staticCallee(&call.Call)
-			if cal == nil || cal.Name() != s.step {
+			if cal == nil || fname(cal) != s.step {
 				return
 			}
 			for _, g := range guardsOf(b) {
@@ -460,7 +460,7 @@ func uncheckedDeref(f *ssa.Function, depth int) bool {
 			}
 			if v, val := g.boolVal(); val {
 				if call, ok := v.(*ssa.Call); ok {
-					if cal := staticCallee(&call.Call); cal != nil && cal.Name() == "refind" {
+					if cal := staticCallee(&call.Call); cal != nil && fname(cal) == "refind" {
 						guarded = true
 					}
 				}
